@@ -47,10 +47,12 @@ pub struct Peek { pub dev_ctr: u32, pub rdr_ctr: u32, pub sk_device: [u8; 32], p
 
 pub fn peek_value(v: &Value) -> Peek {
     Peek {
-        dev_ctr: vu32(vget(v, "device_message_counter").unwrap()),
-        rdr_ctr: vu32(vget(v, "reader_message_counter").unwrap()),
-        sk_device: vkey(vget(v, "sk_device").unwrap()),
-        sk_reader: vkey(vget(v, "sk_reader").unwrap()),
+        // a field that is no longer serialised is reported as absent (counter 0xFFFF_FFF0 / zero key),
+        // never a harness crash: the comparison with the model then shows it
+        dev_ctr: vget(v, "device_message_counter").map(vu32).unwrap_or(0xFFFF_FFF0),
+        rdr_ctr: vget(v, "reader_message_counter").map(vu32).unwrap_or(0xFFFF_FFF0),
+        sk_device: vget(v, "sk_device").map(vkey).unwrap_or([0; 32]),
+        sk_reader: vget(v, "sk_reader").map(vkey).unwrap_or([0; 32]),
         state: vget(v, "state").and_then(|s| cbor::from_value(s.clone()).ok()),
     }
 }
